@@ -170,7 +170,7 @@ def extract(R):
     out['quote_arms'] = [(rust_unescape(a), rust_unescape(b)) for a, b in
                          re.findall(r"'((?:\\.|[^'\\])+)'\s*=>\s*escaped\.push_str\(\"((?:[^\"\\]|\\.)*)\"\)", q)]
     need(len(out['quote_arms']) >= 1, 'quote_value arms not found')
-    mfmt = re.search(r'_ => escaped\.push_str\(&format!\("((?:[^"\\]|\\.)*)", c as isize\)', q)
+    mfmt = re.search(r'_ => escaped\.push_str\(\s*&format!\("((?:[^"\\]|\\.)*)",\s*c as \w+\s*\)', q)
     need(mfmt is not None, 'quote_value default arm not found')
     out['quote_default_fmt'] = rust_unescape(mfmt.group(1))
     mneeds = re.search(r'fn char_needs_escaping\(c: char\) -> bool \{(.*?)\n\}', q, re.S)
